@@ -156,8 +156,19 @@ def tables(cfg, crate, rep):
     rep.ob("C17.tables", "%s|%s" % (cfg, fn), ok, "every entry of the certificate's subjectAltName general_names is converted by the shared GeneralName converter and the results are what is returned",
            found={"converter_arg": arg[-80:], "calls_in_result": sorted(c.split("::")[-1] for c in cs)})
     c07.san_back(cfg, crate, rep)
+    # "subject name ... equal": attribute types come back through DnType::from_oid, which must invert to_oid
+    import c02
+    n0_ = len(rep.obligations)
+    c02.check_tables(cfg, crate, rep)
+    keep_ = [o for o in rep.obligations[n0_:] if "DnType::" in o["key"]]
+    del rep.obligations[n0_:]
+    for o in keep_:
+        o["key"] = o["key"].replace("C02.tables", "C17.tables", 1)
+        o["rule"] = "C17.tables"
+    rep.obligations.extend(keep_)
+    rep.floor("C17.tables", "DnType OID tables (%s)" % cfg, len(keep_), 2)
     for o in rep.obligations:
-        if o["rule"] == "C07.back" and "try_from_general" in o["key"]:
+        if o["rule"] == "C07.back" and ("try_from_general" in o["key"] or "ip_addr_from_octets" in o["key"]):
             o["rule"] = "C17.tables"
             o["key"] = o["key"].replace("C07.back", "C17.tables")
     # general subtrees: what is appended for one parsed subtree, specialised per GeneralName variant / octet length
